@@ -55,7 +55,14 @@ type Contract struct {
 	Attrs    map[string]string
 	File     string
 	Line     int
+	Raw      []string // the specification part as written (everything but loop invariants/decreases), for pinning
 }
+
+// SpecText: the normalised specification part of the contract (pinned by property specs).
+func (c *Contract) SpecText() string { return strings.Join(strings.Fields(strings.Join(c.Raw, " ; ")), " ") }
+
+// MacroRaw: package path -> macro name -> text as written
+var MacroRaw = map[string]map[string]string{}
 
 func (c *Contract) Key() string { return c.Pkg + "." + c.Func }
 
@@ -191,9 +198,16 @@ func loadContractFile(path string, out map[string]*Contract) error {
 				Macros[pkgPath] = map[string]*Macro{}
 			}
 			Macros[pkgPath][m[1]] = &Macro{Name: m[1], Params: splitNames(m[2]), Body: e}
+			if MacroRaw[pkgPath] == nil {
+				MacroRaw[pkgPath] = map[string]string{}
+			}
+			MacroRaw[pkgPath][m[1]] = strings.Join(strings.Fields(rc.text), " ")
 		default:
 			if cur == nil {
 				return fmt.Errorf("%s:%d: clause outside func", path, rc.line)
+			}
+			if rc.kw != "loop" && rc.kw != "invariant" && rc.kw != "decreases" && !(rc.kw == "modifies" && curLoop != nil) {
+				cur.Raw = append(cur.Raw, rc.kw+" "+rc.text)
 			}
 			switch rc.kw {
 			case "params":
